@@ -32,7 +32,7 @@ CLAIMS = {
              "are the plaquettes across its edges in edge order; one coordination number per vertex = row length; edge neighbours; adjacency "
              "symmetric/true at joined pairs; helper edge sets = table rows; and history independence of the lazily computed attributes for every "
              "sequence of accesses and pickle round trips. Every table and helper of koala is compared exactly with the model on the zoo; all 24 "
-             "first-access orders × {fresh, unpickled, pickled midway} are executed on the implementation.",
+             "first-access orders × {fresh, unpickled, pickled midway} are executed on the implementation. vertex_row_fits: a vertex lies on at most as many plaquettes as it has incident edges, so the first-free-slot filling of the vertex rows never overflows.",
         note="Trusted: Lean kernel/Mathlib/standard axioms; harness; CPython pickle and cached_property semantics (modelled by the Cache state machine); "
              "the mirror-order relation between clockwise_about and the table is decided by correspondence, not proved; the 'row never overflows' bound "
              "is exercised by correspondence (degree 0..12), not yet proved.",
@@ -84,7 +84,7 @@ CLAIMS = {
              "ordering[inverse[a]] = a, new position i = old position ordering[i], edge order and every edge vector unchanged. Output lattices of all five operations "
              "are compared exactly with the model on the zoo (all four boundary selections, subsets of every size incl. none/all/isolating, permutations); plaquette "
              "survival with equal geometry, no new plaquettes after cut/trailing removal, idempotence and plaquette invariance under relabelling are evaluated on "
-             "the implementation.",
+             "the implementation. face_survives: tracing from a dart of a face none of whose edges is removed returns the very same face in the thinned-out rotation system (cyclic successor survives filtering); permute_rotAt / permute_nextD / permute_allWalks: relabelling the vertices keeps every clockwise list and every face walk.",
         note="Trusted: Lean kernel/Mathlib/standard axioms; translator; harness. Known finding K1 (open): remove_trailing_edges creates a plaquette when a dangling tree sits "
              "inside a bounded face; any new plaquette that is not an input face with removed twice-used edges spliced out is still a VIOLATION. The Lean theorem "
              "'faces avoiding removed edges survive' (rotation lists only lose entries the face never steps to) is not yet proved; that clause rests on the "
@@ -112,7 +112,7 @@ CLAIMS = {
              "next_direction's are the same kernel; tile_unit_cell has n_x·n_y·|E| edges, each of the stated shape and inside n_x·n_y·k vertices. Edges, crossings and colourings "
              "of honeycomb (n=2..16), hex-square-oct (2..8), tri-non (all (n_x,n_y) in 2..6 and scalar), square (2..8²), tile_unit_cell (regular and random Voronoi cells, "
              "all 1..4²), single_plaquette / wheel (3..40), ladder (3..30, both wobble settings) are compared exactly with the index-level model; closedness, polygon census, "
-             "coordination, V−E+F=0, areas summing to 1, proper colourings, translated-copy property and make_honeycomb's flux sector are evaluated on the implementation.",
+             "coordination, V−E+F=0, areas summing to 1, proper colourings, translated-copy property and make_honeycomb's flux sector are evaluated on the implementation. nc_perm: translation by a fixed shift permutes the cells; honeycomb_trivalent and hso_trivalent: every vertex of honeycomb_lattice / hex_square_oct_lattice has exactly three edge ends, for every size.",
         note="Trusted: Lean kernel/Mathlib/standard axioms; translator; harness. Positions (irrational scale factors) are not modelled; the polygon census and areas are decided on "
              "the implementation's plaquettes (C01 ties those to the model). honeycomb trivalence / colouring properness for *all* n is decided by correspondence for n ≤ 16 plus the "
              "bijection theorem, not yet by a closed Lean proof of the degree count. n_vertical = round(n/√3) is computed exactly in the model (integer inequality).",
@@ -125,7 +125,7 @@ CLAIMS = {
              "and every bijective relabelling reindexes it, so the characteristic polynomial is unchanged; the fermionic form satisfies H_f·S = S·(2H) with an explicit invertible S, "
              "hence charpoly(H_f) = charpoly(2H), and H_f is Hermitian (BdG blocks by definition). Every entry of majorana_hamiltonian (dyadic couplings, exact floats) is compared "
              "with the model, also after single-vertex gauge moves; the entry law, symmetries, spectra under all gauge moves / random permutations / bisection along each colour, "
-             "bisection halves for perfect-matching colours, BdG structure and the doubled fermionic spectrum are evaluated on the implementation.",
+             "bisection halves for perfect-matching colours, BdG structure and the doubled fermionic spectrum are evaluated on the implementation. bisect_halves: for every permutation argsort may return for the 0/1 sublattice labels, zero-labelled vertices land before one-labelled ones with the boundary at the number of zeros, so every dimer of the chosen colour joins the two halves.",
         note="Trusted: Lean kernel/Mathlib/standard axioms; harness; LAPACK eigvalsh for the numerical spectrum comparisons (1e-9). bisect_lattice's 'opposite halves' clause is "
              "decided on the implementation, not proved (numpy argsort of the labels is not modelled); the link between the abstract blocks F,D,M of the fermion theorem and "
              "majorana_to_fermion_ham's slicing is by the numerical check.",
@@ -229,7 +229,7 @@ CLAIMS = {
              "between the same two vertices that wind differently (parallel edges survive) and determines the unordered vertex pair; de-duplication keeps exactly one found edge per key; a "
              "trivalent torus tiling by N cells has 2N vertices and 3N edges. The Voronoi object koala uses is wrapped and its (shifted) vertices and ridges are handed exactly to the "
              "model, whose edge list, crossings and kept vertices must equal koala's; the statement is evaluated against an independent 7×7 periodic Delaunay reference under the "
-             "statement's own density precondition, incl. the tiling consequences and Lloyd relaxation.",
+             "statement's own density precondition, incl. the tiling consequences and Lloyd relaxation. nearest_spec / nearest_of_mem: the in-cell representative lookup (KDTree query modelled by an exact argmin) returns a valid index of a nearest vertex, and exactly the vertex looked up when it is present.",
         note="Partial by nature: qhull (scipy Voronoi/Delaunay) and the exactness of the 3×3 / 5×5 replication under the density bound are trusted (the bound is computed independently and "
              "failing point sets are precondition-excluded); KDTree queries are modelled by an exact argmin; the vertex shift is recorded and checked against the reference centroids, "
              "not modelled. Trusted: Lean kernel/Mathlib/standard axioms; harness.",
